@@ -60,7 +60,7 @@
                                   (highlight-and-debug then      2)
                                   (highlight-and-debug otherwise 3))))
       ((= operator 'eval)   (let (operand (highlight-and-debug (car operands) 1))
-                              (highlight-and-debug operand 1)))
+                              (highlight-and-debug (. (keep-expanding operand env env-module nil nil) 'result) 1)))
       ((= operator 'trap)   (make-trap (car operands) (car (cdr operands))) env)
       ((= operator 'lambda) (make-function (car operands)
                                            (car (cdr operands))
